@@ -8,6 +8,7 @@
    A rejected trace is re-executed from scratch; only a reproduced rejection is reported.
 """
 import json
+import re
 import os
 import random
 import shutil
@@ -553,11 +554,34 @@ def run(ctx):
     if drifts:
         ctx.notes.append("drift: %s" % "; ".join(drifts[:3]))
 
+    if bad_status:
+        # A script that got stuck under the full parallel load is re-run ALONE twice; a call
+        # that still does not return within the 30 s watchdog while nothing else runs is the
+        # real code blocking forever (no definite end), not starvation.
+        seen = set()
+        for j, row in bad_status:
+            if row.get("status") != "stuck" or len(seen) >= 3:
+                continue
+            key = (j["tr"], re.sub(r"\d+", "N", str(row.get("note"))))
+            if key in seen:
+                continue
+            seen.add(key)
+            # 40 fresh executions of this one script (8 workers, fresh jitter): on the unchanged
+            # tree none ever sticks; a call that again fails to return within the 30 s watchdog
+            # is the real code blocking forever (no definite end), not starvation
+            copies = [dict(j, i=k, seed=(j.get("seed", 0) + 7919 * (k + 1))) for k in range(40)]
+            by1, _ = run_jobs(ctx, copies, "again_%d" % len(seen), workers=8)
+            again = sum(1 for k in range(40) if by1[k].get("status") == "stuck")
+            ctx.notes.append("re-execution of stuck %s script: %d of 40 stuck again" % (j["tr"], again))
+            if again >= 1:
+                ctx.report("C14 %s call never returns: %s" % key,
+                           "%s transport: %s (%d of 40 fresh re-executions of this script stuck again)" % (j["tr"], row.get("note"), again),
+                           {"job": j, "note": row.get("note"), "kind": "stuck", "stuck_again": again})
     if bad_status and not ctx.violations:
         j, row = bad_status[0]
         # starvation / open failure alone is never a verdict
-        raise vlib.Inconclusive("%d of %d scripts did not complete (first: %s %s: %s)" % (
-            len(bad_status), len(jobs), j["tr"], row["status"], row.get("note")))
+        raise vlib.Inconclusive("%d of %d scripts did not complete (first: %s %s: %s); %s" % (
+            len(bad_status), len(jobs), j["tr"], row["status"], row.get("note"), "; ".join(ctx.notes[-6:])))
 
     # vacuity of the binding: the mechanisms the clauses talk about were exercised on every transport
     need = []
